@@ -273,6 +273,11 @@ def _pad_vector(rep, R3, fi, pname):
                 return Opaque("spectrum")
             return None
         Evaluator(resolve, on_call).run(fi.node.body, {})
+        if len(seen) > 1:
+            rep.violation(R3, fi.site(), fi.fq, f"{D} spatial axes: the spectrum is brought to the mode counts by ONE pad (fill with zeros or cut the high end)",
+                          f"{len(seen)} pad calls: a spectrum that is cut and filled again loses modes - which ones depends on something other than (mode_k, spectrum_k)",
+                          f"D={D}: {len(seen)} pads")
+            continue
         if len(seen) != 1 or seen[0] is UNKNOWN or not isinstance(seen[0], (list, tuple)):
             rep.undecided(R3, fi.site(), fi.fq, f"padding list evaluable for {D} spatial axes", f"{seen!r}"[:120])
             continue
